@@ -5,6 +5,8 @@ import (
 	"os"
 	"strings"
 
+	"github.com/mdzio/go-mqtt/message"
+	"github.com/mdzio/go-mqtt/service"
 	"github.com/mdzio/go-mqtt/verifrt/vsched"
 	"verif/engine/explore"
 	"verif/harness/core"
@@ -197,6 +199,28 @@ func raceScenarios() []raceScenario {
 		}
 		vsched.Quiesce()
 	}})
+	// (vii) two goroutines call Server.Publish / Server.Subscribe concurrently
+	out = append(out, raceScenario{"concurrent in-process Publish x2 + Subscribe", func() {
+		t := newTD()
+		t.connect("A1", 0, 65535, false)
+		t.connect("A2", 0, 65535, false)
+		t.connect("B1", 0, 65535, false)
+		t.subscribe("A1", "pa", 1)
+		t.subscribe("A2", "pa", 0)
+		t.subscribe("B1", "pb", 1)
+		if vsched.Failed() {
+			return
+		}
+		vsched.Mark()
+		vsched.Go("publish-a", func() { t.w.Svr.Publish(localPublish("pa", 1, true, "message-a")) })
+		vsched.Go("publish-b", func() { t.w.Svr.Publish(localPublish("pb", 1, false, "message-b")) })
+		vsched.Go("subscribe-local", func() {
+			h := &Harness{W: t.w, M: NewModel(2, true), localFn: map[string]*service.OnPublishFunc{}, localGot: map[string][]*refcodec.Packet{}}
+			f := service.OnPublishFunc(func(msg *message.PublishMessage) error { return nil })
+			h.W.Svr.Subscribe("pa", 1, &f)
+		})
+		vsched.Quiesce()
+	}})
 	// (vi) back-to-back large publishes: the publisher's incoming ring wraps while the
 	// first message is still being fanned out
 	out = append(out, raceScenario{"ring wraps during fan-out", func() {
@@ -242,7 +266,7 @@ func C18(c *core.Ctx) {
 	if c.Thorough() {
 		dev = 2
 	}
-	c.Rep.Bound = fmt.Sprintf("SCHED under ThreadSanitizer: six scenarios of concurrent connection handling, fan-out, retained updates, subscription churn, teardown and Server.Close (2-3 connections, in-process Publish), default-schedule set-up, then every schedule deviating from the default at <= %d points; the scheduler's own hand-offs are hidden from the race detector, the shims reproduce the happens-before edges of the real sync primitives", dev)
+	c.Rep.Bound = fmt.Sprintf("SCHED under ThreadSanitizer: seven scenarios of concurrent connection handling, fan-out, retained updates, subscription churn, teardown and Server.Close (2-3 connections, in-process Publish), default-schedule set-up, then every schedule deviating from the default at <= %d points; the scheduler's own hand-offs are hidden from the race detector, the shims reproduce the happens-before edges of the real sync primitives", dev)
 	c.Rep.Rule = "oracle: after every execution the race detector's error count must not have grown; a report counts when both racing accesses are in the repository's packages (not in the runtime shims or the harness); distinct = distinct happens-before states"
 	rl := newRaceLog()
 	known := map[string]int{}
